@@ -566,6 +566,37 @@ def run_case(case) -> CaseResult:
                 if tcanon(gotf) != canon_run[i]:
                     res.violate(f'{kinds[i]}: forced recomputation returned {short(gotf, 300)} but run returned {short(mv, 300)}', witness=wit)
                     ok_idx.remove(i)
+        # forced recomputation of collection-like results between empty and non-empty (an empty result is a result like any other)
+        for i in list(ok_idx):
+            k = kinds[i]
+            if k not in ('listnp', 'dir', 'generated') or rng.random() > 0.5:
+                continue
+            was_empty = len(values[i]) == 0
+            nv = None
+            for _ in range(8):
+                cand = gen_value(rng, k)
+                if (len(cand) == 0) != was_empty:
+                    nv = cand
+                    break
+            if nv is None and not was_empty:
+                nv = type(values[i])()
+            if nv is None:
+                continue
+            values[i] = nv
+            wit = {'kind': k, 'value': short(nv, 600), 'index': i, 'seed': case['seed'], 'forced_from': 'empty' if was_empty else 'non-empty'}
+            try:
+                t = chain1[f't{i}']
+                t.force()
+                gotf = observed_form(k, t.value)
+            except Exception as e:
+                res.violate(f'{k}: forced recomputation ({"empty -> non-empty" if was_empty else "non-empty -> empty"}) raised {type(e).__name__}: {e}', witness=wit)
+                ok_idx.remove(i)
+                continue
+            canon_run[i] = tcanon(nv)
+            res.count('forced_between_empty_and_non_empty')
+            if tcanon(gotf) != canon_run[i]:
+                res.violate(f'{k}: forced recomputation ({"empty -> non-empty" if was_empty else "non-empty -> empty"}) returned {short(gotf, 300)} but run returned {short(nv, 300)}', witness=wit)
+                ok_idx.remove(i)
         c06mod.VALUES = None                    # from here on any run is an error (the loader must load)
         before = tree_hash(data_dir)
         chain2 = mkchain()
